@@ -71,6 +71,9 @@ inline std::vector<std::string> alphabet(const std::string &type) {
   std::vector<std::string> a = {"B0", "B1", "b0", "b1", "I1", "I2", "I3", "I4"};
   if (type != "akima") for (const char *s : {"G1F1", "G1F2", "G2F1", "G2F2", "F1", "F2"}) a.push_back(s);
   if (type == "cubic") for (const char *s : {"S1", "S2", "XA", "XB"}) a.push_back(s);
+  // rejected operations (seed8-C12, "state after a reported error"): a call the class reports as an error must leave the object as it was
+  for (const char *s : {"RM", "RS"}) a.push_back(s);
+  if (type != "akima") a.push_back("RF");
   for (const char *s : {"PC", "PD", "PVC", "PVD", "PP"}) a.push_back(s);
   if (type == "cubic") a.push_back("PM");
   return a;
@@ -100,6 +103,15 @@ inline bool apply(const std::string &op, const std::string &type, Spline &sp, Mo
   auto *cub = dynamic_cast<CubicSpline *>(&sp);
   if (op == "B0" || op == "B1") { m.bc = op[1] - '0'; sp.setBC(m.bc ? Spline::splinePeriodic : Spline::splineNormal); return true; }
   if (op == "b0" || op == "b1") { m.bc = op[1] - '0'; sp.setBCInt(m.bc); return true; }
+  if (op[0] == 'R') {  // RM: Interpolate with x/y of different sizes; RS: Interpolate with one point fewer than the type needs; RF: Fit with x/y of different sizes
+    bool threw = false;
+    try {
+      if (op == "RM") { Vec x{0, 1, 2, 3, 4}, y{1, 2, 3, 4}; sp.Interpolate(c12::eig(x), c12::eig(y)); }
+      else if (op == "RS") { Vec x, y; for (int i = 0; i + 1 < c12::minknots(type); i++) { x.push_back(3 + i); y.push_back(7 - 2 * i); } sp.Interpolate(c12::eig(x), c12::eig(y)); }
+      else { Vec x{0, 0.5, 1, 1.5, 2}, y{1, 2}; sp.Fit(c12::eig(x), c12::eig(y)); }
+    } catch (const std::exception &) { threw = true; }
+    return threw;  // the model does not change; a call that is accepted is not a rejected operation (history not enumerated)
+  }
   if (op[0] == 'I') {
     int k = op[1] - '0';
     if ((int)interp_data(k).x.size() < c12::minknots(type)) return false;
